@@ -186,8 +186,10 @@ def r_tables(prog, rep):
                       key="C08.R4:Terminator[%s].close:mood" % row.src)
     N = prog.machine("Nameplate")
     M = prog.machine("Mailbox")
-    for m, done, resp, never in ((N, "self._T.nameplate_done", "rx_released", ("S0A", "S0B", "S1A")),
-                                 (M, "self._T.mailbox_done", "rx_closed", ("S0A", "S0B", "S1A"))):
+    from ..tablerules import reachable_avoiding_rows, held_states, colouring
+    for m, done, resp, acquire in ((N, "self._T.nameplate_done", "rx_released", ".tx_claim"), (M, "self._T.mailbox_done", "rx_closed", ".tx_open")):
+        # states in which the resource was never requested from the server: reachable without traversing an acquiring row
+        never = reachable_avoiding_rows(m, lambda r, m=m, acquire=acquire: any(c.endswith(acquire) for c in row_calls(m, r)) or r.inp == "close")
         rows = rows_calling(m, done)
         finals = {r.enter for r, o in rows}
         rep.check("C08.R4", "%s emits %s only entering one final state" % (m.name, done.split(".")[-1]),
@@ -198,13 +200,20 @@ def r_tables(prog, rep):
                 m.name, r.src, r.inp, done.split(".")[-1], resp), ok, r.site,
                 key="C08.R4:%s[%s].%s:done" % (m.name, r.src, r.inp),
                 what="%s signals done on %s.%s although the server may still hold the resource" % (m.name, r.src, r.inp))
-    # close rows of connected, acquired states send the release / close
-    for m, tx, states in ((N, "tx_release", ("S2B", "S3B")), (M, "tx_close", ("S2B",))):
-        for s in states:
-            r = m.row(s, "close")
-            rep.check("C08.R4", "%s[%s].close sends %s" % (m.name, s, tx),
-                      r is not None and any(c.endswith("." + tx) for c in row_calls(m, r)),
-                      r.site if r else m.file, key="C08.R4:%s[%s].close:%s" % (m.name, s, tx))
+    # close rows of connected states in which the resource may be held (and no release/close is outstanding yet) send it
+    for m, tx, acquire, resp in ((N, "tx_release", ".tx_claim", "rx_released"), (M, "tx_close", ".tx_open", "rx_closed")):
+        col = colouring(m)
+        held = held_states(m, acquire, resp)
+        n = 0
+        for s in sorted(held):
+            if "B" in col.get(s, set()) and m.row(s, resp) is None:
+                n += 1
+                r = m.row(s, "close")
+                rep.check("C08.R4", "%s[%s].close (connected, resource possibly held) sends %s" % (m.name, s, tx),
+                          r is not None and any(c.endswith("." + tx) for c in row_calls(m, r)),
+                          r.site if r else m.file, key="C08.R4:%s[%s].close:%s" % (m.name, s, tx))
+        if n == 0:
+            raise AnalysisError("%s: no connected state holding the resource was derived from the table" % m.name)
 
 
 def _state_after(B, inp):
